@@ -160,7 +160,9 @@ impl StreamMaps {
                 let mut stream_map = StreamMap::new();
                 stream_map.insert(key, &value, generation)?;
                 let descriptor = StreamMapDescriptor::global(stream_map);
-                self.stream_maps.insert(name.to_string(), vec![descriptor]);
+                // restricted stream maps of scopes that are still being executed must stay in place:
+                // the global one is the widest scope and goes first
+                self.stream_maps.entry(name.to_string()).or_default().insert(0, descriptor);
                 Ok(())
             }
         }
